@@ -3,7 +3,7 @@ import collections
 from common import proof_audit, TRUSTED_BASE
 from gen import Gen
 from seqdiff import run_seq
-from seqprop import audit, coverage
+from seqprop import audit, coverage, corpus
 
 LEVEL = "proof"
 COQ_TARGETS = ("props/C01.vo",)
@@ -31,7 +31,7 @@ def programs(seed, n, nops):
 def run(rep, tier, seed, build):
     n, nops = (240, 45) if tier == "quick" else (4000, 120)
     audit(rep, "props/C01.v", THEOREMS, build)
-    progs = programs(seed, n, nops)
+    progs = corpus("C01") + programs(seed, n, nops)
     res = run_seq(rep, progs)
     coverage(rep, res, progs,
              "generated programs over 1-3 keyspaces (plain / single-writer / optimistic databases), random placement of "
